@@ -16,7 +16,10 @@ CONSTANTS
   Strict = FALSE
   WithServe = FALSE
   Hist = FALSE
-INVARIANTS TypeOK C02_TargetPrefix C02_ClientPrefix C02_FinToTargetAfterAll C02_FinToClientAfterAll C02_Independent C02_CompleteAtClose
-INVARIANTS C15_Language C15_AuthOnlyIfAuthenticated C15_ProbeIffFailed C15_ProbeBytes C15_Status C15_OkIffComplete C15_Counters
+  SlackEarly = 0
+  SlackLate = 0
+  SlackSched = 0
+INVARIANTS TypeOK Inv_C02 C02_Independent C02_Buf50First
+INVARIANTS Inv_C15 C15_CountersTrackDelivery
 INVARIANTS C18_NoLeak C18_ServeWaits C18_SocketsFollowHandler
 VIEW View
